@@ -501,6 +501,14 @@ def run(ctx):
             accepted += r["res"] == "ok"
             refused += r["res"] == "error"
         traces.append((i, trace_line(i, h, o)))
+    if os.environ.get("VERIF_C16_CORRUPT"):
+        # self-test of the binding: falsify one recorded result (an accepted AddVertex recorded as refused);
+        # the trace validation must then reject that history
+        for _, t in traces:
+            c = next((c for c in t["calls"] if c["op"] == "AddVertex" and c["res"] == "ok" and c["g"] != tok(BG)), None)
+            if c is not None:
+                c["res"] = "error"
+                break
     chunks = [traces[n:n + 300] for n in range(0, len(traces), 300)]
 
     def validate(chunk):
@@ -514,8 +522,6 @@ def run(ctx):
                 verdicts[v["i"]] = v["aspects"]
     if len(verdicts) != len(traces):
         raise Inconclusive("TLC validated %d of %d traces" % (len(verdicts), len(traces)))
-    if os.environ.get("VERIF_C16_CORRUPT"):
-        pass
     ndiv = 0
     for i, _ in traces:
         asp = verdicts[i]
